@@ -9,6 +9,7 @@ The baseline is the current /repo tree, so known findings do not count as detect
 from __future__ import annotations
 
 import importlib
+import json
 import os
 import re
 import shutil
@@ -26,6 +27,11 @@ PKG = "pypika_tortoise"
 
 def _apply(root: Path, edits) -> str | None:
     """edits: list of (relative file, old, new).  Returns an error string if an anchor is missing/ambiguous."""
+    if isinstance(edits, str):
+        # a stored behaviour-preserving refactoring (seeded_keep/<name>/patch.diff), applied as a patch
+        import subprocess
+        r = subprocess.run(["git", "apply", "-p1", edits], cwd=root, capture_output=True, text=True)
+        return None if r.returncode == 0 else f"patch does not apply: {r.stderr.strip()[:120]}"
     for rel, old, new in edits:
         p = root / PKG / rel
         if not p.exists():
@@ -54,7 +60,7 @@ def _run_variant(args):
         err = _apply(tmp, edits)
         if err:
             return (pid, name, kind, "skipped", err, [])
-        for rel, _, _ in edits:
+        for rel, _, _ in ([] if isinstance(edits, str) else edits):
             try:
                 compile((tmp / PKG / rel).read_text(), rel, "exec")
             except SyntaxError as e:
@@ -90,6 +96,13 @@ def run_selftest(pid: str, run: Run, seed: int = 0, jobs: int | None = None) -> 
         if v[0] != pid and v[2] == "keep" and v[1] not in own_names and v[1] not in seen_cross and (pid, v[1]) not in CROSS_EXEMPT:
             seen_cross.add(v[1])
             todo.append((pid, "x:" + v[1], "keep", v[3], ""))
+    # ... and so must the stored refactorings that independent sub-agents produced (confirmed behaviour-preserving)
+    kd = Path(__file__).resolve().parent.parent / "seeded_keep"
+    if kd.is_dir():
+        for d in sorted(kd.iterdir()):
+            mf, pf = d / "meta.json", d / "patch.diff"
+            if mf.exists() and pf.exists() and json.loads(mf.read_text()).get("confirmed") and (pid, d.name) not in CROSS_EXEMPT:
+                todo.append((pid, "r:" + d.name, "keep", str(pf), ""))
     src_root = repo_root()
     base = _findings(pid, src_root)
     jobs = jobs or min(16, max(1, os.cpu_count() or 1))
